@@ -650,7 +650,13 @@ func EncodeFileBlock(typ string, payload []byte, useZlib bool, level int, indexL
 		case "bad-adler":
 			z[len(z)-1] ^= 0x5A
 		case "zlib-truncated":
-			z = z[:len(z)/2]
+			// cut inside the deflate data, also when there is hardly any (an empty payload
+			// deflates to two bytes): losing only the checksum trailer is zlib-trailer-cut
+			cut := len(z) / 2
+			if cut > len(z)-5 {
+				cut = len(z) - 5
+			}
+			z = z[:cut]
 		case "zlib-trailing":
 			// bytes after the end of the zlib stream, inside zlib_data
 			z = append(z, bytes.Repeat([]byte{0x5a, 0x00, 0xff}, int(dmg.Arg)/3+1)[:dmg.Arg]...)
